@@ -32,6 +32,7 @@ type Ctx struct {
 	curAllocState *State
 	// cells of variables assigned once in their lexical family: content survives havocs
 	immCells []immCell
+	assumeProbes []assumeProbe
 	shapeDone map[string]bool
 }
 
@@ -154,7 +155,11 @@ func (c *Ctx) oblige(name, kind, label string, reach, cond Term, pos token.Pos, 
 	}
 	o := &Obligation{Name: name, Kind: kind, Label: label, nfacts: len(c.facts), Reach: reach, Cond: cond, Pos: pos, Desc: desc}
 	c.obls = append(c.obls, o)
-	// later code may assume it
+	// later code may assume it — except a listed known finding: it is expected to be FALSE on this
+	// tree, and assuming it would make everything after it in the function vacuously true
+	if c.V != nil && c.V.isKnownName(name) {
+		return o
+	}
 	imp := implies(reach, cond)
 	c.assume(imp)
 	if n := len(c.facts); n > 0 && c.facts[n-1].s == imp.S {
@@ -831,4 +836,21 @@ func constValue(s string) string {
 	s = strings.ReplaceAll(s, "niliface", "(mkiface 0 0)")
 	s = strings.ReplaceAll(s, "nilslice", "(mkslice pnil 0 0 0)")
 	return s
+}
+
+func (v *Verifier) isKnownName(name string) bool {
+	if v.knownNames[name] {
+		return true
+	}
+	for k := range v.knownNames {
+		if strings.HasPrefix(name, k+".") {
+			return true
+		}
+	}
+	return false
+}
+
+type assumeProbe struct {
+	nBefore, nAfter int
+	reach, src      string
 }
